@@ -348,6 +348,20 @@ func (it *Interp) execRange(env *Env, s *ast.RangeStmt) ctl {
 		}
 	}
 	switch c := coll.(type) {
+	case int:
+		// range over an integer (Go 1.22): 0 .. c-1
+		for i := 0; i < c; i++ {
+			e2 := newEnv(env)
+			bind(e2, s.Key, i)
+			r := it.execBlock(e2, s.Body.List)
+			if r == cReturn {
+				return r
+			}
+			if r == cBreak {
+				break
+			}
+		}
+		return cNone
 	case *SliceVal:
 		for i := 0; i < len(c.Elems); i++ {
 			e2 := newEnv(env)
